@@ -470,6 +470,11 @@ def _init_htpasswd_context():
     preferred = schemes[:3] + ["apr_md5_crypt"] + schemes
     schemes = sorted(set(schemes), key=preferred.index)
 
+    # NOTE: plaintext claims every string, so it has to come after all real hashes
+    #       (including the host's crypt() schemes appended above).
+    schemes.remove("plaintext")
+    schemes.append("plaintext")
+
     # create context object
     return CryptContext(
         schemes=schemes,
